@@ -1,6 +1,13 @@
 # ./check configuration for C12 (merged by mc/props.py)
 PROP = dict(
-    pkg=".", test="TestVerifC12", files=["mc/c12/*.go"], libs=["explore", "canon", "sim", "wireobs", "wiremon"],
+    libs=["explore", "canon", "sim", "wireobs", "wiremon"],
+    targets=[
+        dict(name="e2", pkg=".", test="TestVerifC12", files=["mc/c12/*.go"]),
+        dict(name="e3", pkg=".", test="TestVerifC12E3", files=["mc/c12/e3/*.go"], parts=["e3-stream-completion-lockpoints"],
+             libs=["explore", "canon", "sched", "vsync"], shards=1, gomaxprocs=0, env={},
+             rewrite={f: [('"sync"', 'sync "github.com/refraction-networking/uquic/internal/verifmc/vsync"')]
+                      for f in ("stream.go", "send_stream.go", "receive_stream.go", "streams_map.go", "streams_map_incoming.go", "streams_map_outgoing.go", "internal/flowcontrol/base_flow_controller.go")}),
+    ],
     engine="E2 simx", level="fault_enumeration", shards="ncpu", gomaxprocs=1,
     env={"GODEBUG": "randseednop=0,asyncpreemptoff=1"},
     deterministic=False, crash_is_violation=True,
@@ -9,7 +16,7 @@ PROP = dict(
     assumptions=["goroutine interleavings inside the connection are chosen by the Go runtime (GOMAXPROCS=1), not enumerated; oracles are schedule-independent",
                  "crypto/rand pinned per run with cryptotest.SetGlobalRandom; math/rand seeded",
                  "the in-tree server never exceeds the limits the client advertised"],
-    level_text="Exhaustive enumeration of (advertised-limit value x boundary scenario x user Config) on real endpoints in virtual time: generated transport-parameter lists vary one limit at a time over {absent, 0, small, Config default -1/0/+1, large}; the in-tree server, a conformant peer, is scripted to use each advertised limit (read off the wire by the independent observer) up to its boundary; the client must stay error-free and all advertised credit must be usable. All 7 built-in fingerprints run every scenario. Every execution is also read by the passive wire monitor (mc/lib/wiremon): each datagram either endpoint SENT is opened with independent packet protection (mc/lib/ref5, secrets from the TLS key log), its frames are parsed by an independent parser, and sender-side invariants are checked (packet numbers increase and stay decodable for what the sender knows to be acknowledged; ACK frames name only packets whose intact copy had arrived; retransmissions never change stream or CRYPTO bytes; data, stream counts and final sizes stay within the limits that had reached the sender, read from the ClientHello / EncryptedExtensions; frames fit their encryption level; 1-RTT packets use connection IDs the peer issued and the sender has not retired; nothing but CONNECTION_CLOSE after CONNECTION_CLOSE). What an endpoint can have received is over-approximated from fates and virtual times, so the monitor can miss but not invent a violation; exchanges with injected datagrams are not judged by it.",
+    level_text="Exhaustive enumeration of (advertised-limit value x boundary scenario x user Config) on real endpoints in virtual time: generated transport-parameter lists vary one limit at a time over {absent, 0, small, Config default -1/0/+1, large}; the in-tree server, a conformant peer, is scripted to use each advertised limit (read off the wire by the independent observer) up to its boundary; the client must stay error-free and all advertised credit must be usable. All 7 built-in fingerprints run every scenario. Every execution is also read by the passive wire monitor (mc/lib/wiremon): each datagram either endpoint SENT is opened with independent packet protection (mc/lib/ref5, secrets from the TLS key log), its frames are parsed by an independent parser, and sender-side invariants are checked (packet numbers increase and stay decodable for what the sender knows to be acknowledged; ACK frames name only packets whose intact copy had arrived; retransmissions never change stream or CRYPTO bytes; data, stream counts and final sizes stay within the limits that had reached the sender, read from the ClientHello / EncryptedExtensions; frames fit their encryption level; 1-RTT packets use connection IDs the peer issued and the sender has not retired; nothing but CONNECTION_CLOSE after CONNECTION_CLOSE). What an endpoint can have received is over-approximated from fates and virtual times, so the monitor can miss but not invent a violation; exchanges with injected datagrams are not judged by it. Lock-point level (target e3): a real client-side streamsMap with real peer-initiated bidirectional Streams, the run loop (acknowledgement of the FIN / RESET_STREAM, RESET_STREAM, FIN, STOP_SENDING, a second stream) racing with the application (Read to the end, CancelRead, CancelWrite), every mutex Lock and Unlock of stream.go, send_stream.go, receive_stream.go, streams_map*.go and the flow controllers a scheduler point, every schedule with at most 2 [3] preemptions; the sender's onStreamCompleted is connection.go's (a failing DeleteStream is the local STREAM_STATE_ERROR).",
     level_note="Trusted: the in-tree server as the conformant peer that exercises the limits; mc/lib/wireobs for the advertised values; windows are exercised up to 8 MB; connection ID issuance by the in-tree server is bounded by its cap of 6 and never uses Retire Prior To; the cids scenario therefore also runs, for the limit read off the wire, an exhaustive in-order search on a real connIDManager configured as u_connection.go does (every history of NEW_CONNECTION_ID with any Retire Prior To that keeps the peer within the limit, handshake completion and rotation, up to sequence number limit+3; mc/c12/c12_export_test.go); reordered and duplicate frames are C16's domain.",
     technique="exhaustive limit-value x boundary-scenario x Config enumeration on real endpoints in virtual time",
 )
